@@ -9,4 +9,6 @@ require (
 	storj.io/drpc v0.0.0
 )
 
+require github.com/gogo/protobuf v1.3.2
+
 replace storj.io/drpc => /repo
